@@ -78,6 +78,9 @@ def opName : Op → String
   | .strIn => "sin" | .i32In => "i32in" | .i64In => "i64in" | .isEmpty => "empty" | .isNotEmpty => "nempty"
 
 def parseLeaf (s : String) : Option Leaf :=
+  -- `@geo`: a geo-distance leg, true exactly when the body carries the coordinates — a leg without a hint
+  if s == "@geo" then
+    some { path := [.field "gla"], op := .isNotEmpty, cv := .none, strVals := [], intVals := [], label := "" } else
   match s.splitOn "~" with
   | [path, op, cv, label] =>
     match opOf op with
@@ -340,7 +343,7 @@ def run (args : List String) : IO UInt32 := do
     bucketWindowTimeOnly := yes kv "bucketWindowTimeOnly",
     bucketNotifyInsert := yes kv "bucketNotifyInsert", bucketNotifyUpdate := yes kv "bucketNotifyUpdate",
     bucketNotifyDelete := yes kv "bucketNotifyDelete", bucketPendingReplayed := yes kv "bucketPendingReplayed",
-    readerDrainsInFlight := yes kv "readerDrainsInFlight" }
+    readerDrainsInFlight := yes kv "readerDrainsInFlight", bucketNotifyAfterAdd := yes kv "bucketNotifyAfterAdd" }
   lineLoop step { cfg := cfg, st := BSt.init }
   return 0
 
